@@ -13,6 +13,7 @@ mod q;
 mod alg;
 mod mat;
 mod xform;
+mod proj;
 
 fn main() {
     let args: Vec<String> = std::env::args().collect();
@@ -29,6 +30,8 @@ fn main() {
         ("drive", "quat") => xform::drive_quat(rest),
         ("drive", "affine") => xform::drive_affine(rest),
         ("drive", "view") => xform::drive_view(rest),
+        ("drive", "proj") => proj::drive_proj(rest),
+        ("drive", "viewport") => proj::drive_viewport(rest),
         (a, b) => { eprintln!("unknown command {} {}", a, b); std::process::exit(2); }
     }
 }
